@@ -58,6 +58,11 @@ pub enum K {
     Advance(u16),
     PopFront,
     Read(u16),
+    /// the provided methods of the `Read` trait, which an implementation may override
+    ReadToEnd,
+    ReadExact(u16),
+    ReadVectored,
+    ReadBytes(u8),
     /// arena bytes obtained by read_n enter through `extend` (not push / push_borrowed), then their anchor
     ExtendAnchored(u16),
     /// arena bytes obtained by read_n: the ANCHOR is pushed first, then the borrowed slice
@@ -119,6 +124,10 @@ impl Op {
             K::Advance(n) => format!("advance_slices({})", n),
             K::PopFront => "pop_front".to_string(),
             K::Read(n) => format!("read({})", n),
+            K::ReadToEnd => "read_to_end".to_string(),
+            K::ReadExact(n) => format!("read_exact({})", n),
+            K::ReadVectored => "read_vectored".to_string(),
+            K::ReadBytes(n) => format!("bytes_take({})", n),
             K::CloneA => "clone".to_string(),
             K::CloneFromA => "clone_from_A_into_B".to_string(),
             K::ClonePending => "clone_while_pending".to_string(),
@@ -167,6 +176,10 @@ impl Op {
             ("advance_slices", Some(n)) => K::Advance(n as u16),
             ("pop_front", None) => K::PopFront,
             ("read", Some(n)) => K::Read(n as u16),
+            ("read_to_end", None) => K::ReadToEnd,
+            ("read_exact", Some(n)) => K::ReadExact(n as u16),
+            ("read_vectored", None) => K::ReadVectored,
+            ("bytes_take", Some(n)) => K::ReadBytes(n as u8),
             ("clone", None) => K::CloneA,
             ("clone_from_A_into_B", None) => K::CloneFromA,
             ("clone_while_pending", None) => K::ClonePending,
@@ -492,6 +505,8 @@ impl Exec {
             K::Register(_) => side.pending.len() < 12,
             K::BackfillWrongSize(i) => side.pending.len() > i as usize && side.pending.iter().all(|p| p.token.is_some()),
             K::PopFront => !side.iov.stable_prefix().is_empty(),
+            // read_exact leaves the amount consumed unspecified when it fails: only asked for what is there
+            K::ReadExact(n) => side.iov.stable_prefix().iter().map(|s| s.len()).sum::<usize>() >= n as usize,
             K::CloneA => op.side == 0 && self.sides[1].is_none() && side.pending.is_empty(),
             K::CloneFromA => op.side == 0 && self.sides[1].is_some() && side.pending.is_empty() && self.sides[1].as_ref().map(|b| b.pending.iter().all(|p| p.token.is_some())).unwrap_or(false),
             K::ClonePending => op.side == 0 && self.sides[1].is_none() && !side.pending.is_empty(),
@@ -739,7 +754,8 @@ impl Exec {
                 let mut buf = vec![0x77u8; n as usize];
                 let got = s.iov.consumer().read(&mut buf).map_err(|e| format!("read failed: {}", e))?;
                 let want = (n as usize).min(stable);
-                if got != want {
+                // a Read implementation may return fewer bytes than asked, but not nothing while bytes are consumable
+                if got > want || (got == 0 && want > 0) {
                     return Err(format!("[content] read({}) returned {} with {} consumable bytes", n, got, stable));
                 }
                 for (j, byte) in buf[..got].iter().enumerate() {
@@ -752,6 +768,73 @@ impl Exec {
                 }
                 s.consumed += got;
                 self.ever_consumed |= got > 0;
+            }
+            K::ReadToEnd | K::ReadExact(_) | K::ReadVectored | K::ReadBytes(_) => {
+                let s = self.sides[si].as_mut().unwrap();
+                let stable: usize = s.stable_lens().iter().sum();
+                let total_before = s.iov.total_size();
+                let mut out: Vec<u8> = vec![0xEE, 0xEF];
+                let (got, reported): (Vec<u8>, usize) = match op.k {
+                    K::ReadToEnd => {
+                        let n = s.iov.consumer().read_to_end(&mut out).map_err(|e| format!("read_to_end failed: {}", e))?;
+                        if out[..2] != [0xEE, 0xEF] {
+                            return Err("[content] read_to_end overwrote the bytes already in the destination".into());
+                        }
+                        if out.len() != 2 + n {
+                            return Err(format!("[content] read_to_end returned {} but appended {} bytes", n, out.len() - 2));
+                        }
+                        if n != stable {
+                            return Err(format!("[content] read_to_end returned {} with {} consumable bytes (it reads until read() returns 0)", n, stable));
+                        }
+                        (out[2..].to_vec(), n)
+                    }
+                    K::ReadExact(n) => {
+                        let mut buf = vec![0x77u8; n as usize];
+                        s.iov.consumer().read_exact(&mut buf).map_err(|e| format!("[content] read_exact({}) failed with {} consumable bytes: {}", n, stable, e))?;
+                        (buf, n as usize)
+                    }
+                    K::ReadVectored => {
+                        let (mut b0, mut b1, mut b2) = ([0x77u8; 2], [0x77u8; 0], [0x77u8; 70]);
+                        let n = {
+                            let mut bufs = [std::io::IoSliceMut::new(&mut b0), std::io::IoSliceMut::new(&mut b1), std::io::IoSliceMut::new(&mut b2)];
+                            s.iov.consumer().read_vectored(&mut bufs).map_err(|e| format!("read_vectored failed: {}", e))?
+                        };
+                        let mut all: Vec<u8> = b0.to_vec();
+                        all.extend_from_slice(&b2);
+                        if n > all.len() || n > stable || (n == 0 && stable > 0) {
+                            return Err(format!("[content] read_vectored returned {} with {} consumable bytes and 72 bytes of buffers", n, stable));
+                        }
+                        if all[n..].iter().any(|x| *x != 0x77) {
+                            return Err("[content] read_vectored wrote past the count it reported".into());
+                        }
+                        all.truncate(n);
+                        (all, n)
+                    }
+                    _ => {
+                        let K::ReadBytes(k) = op.k else { unreachable!() };
+                        let mut v = Vec::new();
+                        let mut c = s.iov.consumer();
+                        for b in std::io::Read::bytes(&mut c).take(k as usize) {
+                            v.push(b.map_err(|e| format!("bytes() failed: {}", e))?);
+                        }
+                        if v.len() != (k as usize).min(stable) {
+                            return Err(format!("[content] bytes().take({}) yielded {} bytes with {} consumable", k, v.len(), stable));
+                        }
+                        let n = v.len();
+                        (v, n)
+                    }
+                };
+                for (j, byte) in got.iter().enumerate() {
+                    if s.consumed + j >= s.model.len() || s.model[s.consumed + j] != Cell::Byte(*byte) {
+                        return Err(format!("[content] {} copied {:#04x} at {} expected {:?}", op.name(), byte, j, s.model.get(s.consumed + j)));
+                    }
+                }
+                let removed = total_before - s.iov.total_size().min(total_before);
+                if removed != reported {
+                    return Err(format!("[content] {} reported {} bytes but {} bytes left the pipe", op.name(), reported, removed));
+                }
+                s.consumed += reported;
+                self.ever_consumed |= reported > 0;
             }
             K::CloneA => {
                 let s = self.sides[0].as_ref().unwrap();
